@@ -105,9 +105,20 @@ def rand_pgt_line(r):
     return dict(k="line", segs=segs)
 
 
-def rand_pst(r):
+def rand_pst(r, nested=False):
     def lines(n, f):
-        return [rand_blank(r) if r.random() < 0.1 else f() for _ in range(r.randint(0, n))]
+        out = [rand_blank(r) if r.random() < 0.1 else f() for _ in range(r.randint(0, n))]
+        if nested and r.random() < 0.5:
+            # a plain per-element block inside the nested transition block, mentioning the enclosing state / event: the passes
+            # run in a fixed order, the enclosing block's names are in place before the inner block is expanded
+            kind = r.choice(["PG", "PA", "PG", "PE", "PS"])
+            inner = rand_block(r, kind, rich=False)
+            # (the per-guard pass is the last one: only there is the enclosing state's name already in place; the other
+            #  per-element passes run before the transition pass and put their own element's name into every name tag)
+            inner["body"].append(dict(k="line", segs=[["lit", "nested in " if kind == "PG" else "inner of "], ["tag", "STATENAME"], ["lit", " / "],
+                                                      ["tag", {"PG": "GUARDNAME", "PA": "ACTIONNAME", "PE": "EVENTNAME", "PS": "STATENAME"}[kind]]]))
+            out.insert(r.randrange(len(out) + 1), inner)
+        return out
     outer = lambda: rand_line(r, ["STATENAME", "stateName", "STATE_NAME"], 0.8, 1, user=False)
     mid = lambda: rand_line(r, ["STATENAME", "EVENTNAME", "eventName", "EVENT_NAME", "stateName"], 0.8, 2, user=False)
     body = lines(2, outer)
@@ -168,7 +179,7 @@ def rand_template(r, profile="c16", nfiles=None, rich_ok=True):
                 kind = r.choice(["PS", "PE", "PA", "PG", "PASIG", "PS", "PE", "STRUCT", "PROTOMSG", "MSG"])
                 items.append(rand_block(r, kind, rich=rich_ok and r.random() < 0.35))
             elif profile in ("c16", "mixed") and k < 0.85:
-                items.append(rand_pst(r))
+                items.append(rand_pst(r, nested=rich_ok and r.random() < 0.5))
             elif profile in ("c17", "mixed") and k < 0.93:
                 items.append(rand_if(r))
             elif profile in ("c17", "mixed"):
